@@ -422,3 +422,30 @@ Proof.
   split; [|split; split; (discriminate || reflexivity)].
   exists 112, (lit "osition:10%,start  Line:5"). split; [right; exists 37; split; reflexivity|reflexivity].
 Qed.
+
+(* ==== wave 7: tts:textAlign / tts:displayAlign at STRING level (model/DfxpAlign.v) ================================= *)
+From PV Require Import model.DfxpAlign proofs.Pos12AlignFacts.
+
+(* the names the writer prints read back as the same members; any other string gives no component *)
+Theorem C12_alignment_names_roundtrip :
+  (forall h, halign_of_name (halign_name h) = Some h) /\ (forall v, valign_of_name (valign_name v) = Some v)
+  /\ (forall s h, halign_of_name s = Some h -> s = halign_name h) /\ (forall s v, valign_of_name s = Some v -> s = valign_name v).
+Proof. exact (conj halign_name_roundtrip (conj valign_name_roundtrip (conj halign_of_name_some valign_of_name_some))). Qed.
+Print Assumptions C12_alignment_names_roundtrip.
+
+(* write then read at string level: what _create_external_alignment prints for ANY alignment (each component set or not,
+   or no Alignment object) is read by scrape_positioning_info / from_horizontal_and_vertical_align as the same members,
+   the absent ones as start / after - the alignment the enum-level read_region (C12_dfxp_attr_roundtrip) works with *)
+Theorem C12_alignment_strings_roundtrip : forall a,
+  read_alignment (fst (written_alignment a)) (snd (written_alignment a))
+  = Some (mkAlign (Some (match a with Some al => match al_h al with Some h => h | None => HStart end | None => HStart end))
+                  (Some (match a with Some al => match al_v al with Some v => v | None => VBottom end | None => VBottom end))).
+Proof. exact alignment_strings_roundtrip. Qed.
+Print Assumptions C12_alignment_strings_roundtrip.
+
+Example C12_ex_alignment_strings :
+  written_alignment (Some (mkAlign (Some HEnd) None)) = (Some (lit "end"), None)
+  /\ read_alignment (Some (lit "end")) None = Some (mkAlign (Some HEnd) (Some VBottom))
+  /\ read_alignment (Some (lit "justify")) (Some (lit "before")) = Some (mkAlign None (Some VTop))
+  /\ read_alignment (Some (lit "LEFT")) (Some (lit "top")) = None.
+Proof. vm_compute. repeat split. Qed.
